@@ -130,6 +130,11 @@ def respond (line : String) : String :=
       | .value x => s!"v{x}"
       | .setOk => "ok"
       | .setErr x => s!"e{x}"))
+  | [.atom "crc32", b] => match atomBytes? b with
+    | some b => s!"{crc32 b}" | none => "bad-request"
+  | [.atom "capread", lim, n] => match atomNat? lim, atomNat? n with
+    | some lim, some n => (match cappedRead lim (List.replicate n 0x55) with | .ok _ => "ok" | .error _ => "err")
+    | _, _ => "bad-request"
   | [.atom "wrcheck", bsz, .list fmeta, marker, .list ops, implFile, implResS] =>
     let implRes : List Sexp := match implResS with | .list l => l | _ => []
     match atomNat? bsz, atomBytes? marker, atomBytes? implFile with
